@@ -13,6 +13,7 @@ import warnings
 import numpy as np
 
 from harness.core import run_tlc, require_clean, MachineryError
+from harness.refmath import same_values
 from harness.refmath import dense_transforms
 from harness import systems
 
@@ -150,7 +151,7 @@ def judge(ctx, inst, label, spaces, ret, T, MF, MR):
             if i >= j:
                 continue
             g1, g2 = ret[a, b], ret[b, a]
-            if g1 is None or g2 is None or not np.array_equal(np.asarray(g1), np.asarray(g2)):
+            if g1 is None or g2 is None or not same_values(np.asarray(g1, dtype=float), np.asarray(g2, dtype=float)):
                 bad.append(('PairTableSymmetric', {'pair': [a, b], 'fn': fn}))
                 continue
             if fn == 'spinodal_condition':
